@@ -50,9 +50,9 @@ type cTLS struct {
 	Ca, Cert, Key string
 }
 type cStorage struct {
-	Name, Class              string
-	QueueDepth               *int64
-	Legacy, Allow, Deny      string // Legacy: "" | "group-whitelist" | "group-blacklist"
+	Name, Class         string
+	QueueDepth          *int64
+	Legacy, Allow, Deny string // Legacy: "" | "group-whitelist" | "group-blacklist"
 }
 type cEvaluator struct {
 	Name, Class string
